@@ -21,8 +21,8 @@ RULES = ["C10.Lattice", "C10.Signaling", "C10.Roles", "C10.Keys", "C10.Connected
          "C10.RtpDelivery", "C10.RtpIntact"]
 LIVENESS_RULES = {"C10.Signaling", "C10.Connected", "C10.DcDelivery", "C10.RtpDelivery"}
 DEFAULT = {"mode": "WebRtc", "media": ["dc"], "bundle": "balanced", "mux": "require", "ice": "full",
-           "latching": False, "compat": "Standard", "offerer": "A"}
-FACTORS = ["mode", "media", "bundle", "mux", "ice", "latching", "compat", "offerer"]
+           "latching": False, "compat": "Standard", "offerer": "A", "sched": "plain"}
+FACTORS = ["mode", "media", "bundle", "mux", "ice", "latching", "compat", "offerer", "sched"]
 CHUNK = 40
 
 LATTICE_CONSTS = """  Modes = {"WebRtc", "Srtp", "Rtp"}
@@ -33,6 +33,7 @@ LATTICE_CONSTS = """  Modes = {"WebRtc", "Srtp", "Rtp"}
   Latchings = {TRUE, FALSE}
   Compats = {"Standard", "LegacySip"}
   Offerers = {"A", "B"}
+  Scheds = {"plain", "slowSetRemote"}
 """
 
 
@@ -164,7 +165,7 @@ def signature(c, v):
         side = "offerer" if inst == c["offerer"] else "answerer"
     return {"sub": "lifecycle-pair", "rule": rule, "mode": c["mode"], "compat": c["compat"], "ice": c["ice"],
             "mux": c["mux"], "nmedia": len([m for m in c["media"] if m != "dc"]), "dc": "dc" in c["media"],
-            "t": t, "side": side}
+            "sched": c.get("sched", "plain"), "t": t, "side": side}
 
 
 def validate_runs(ck, runs, tag):
@@ -277,7 +278,8 @@ def run(tier):
                       "Trace_LifecyclePair with no C10 rule broken")
     ck.cov["exhaustive"] = bool(tier != "quick" and res["finished"] and len(runs) == len(lattice))
     ck.assumptions += [
-        "lattice = mode x media x bundle policy x rtcp-mux x ice variant x latching x compat x offerer, filtered by "
+        "lattice = mode x media x bundle policy x rtcp-mux x ice variant x latching x compat x offerer x schedule "
+        "(plain / the offerer's set_remote_description task is held 300 ms after it started ICE), filtered by "
         "Compatible (WebRtc: Standard SDP, no latching; direct modes: audio/video only, no ICE variant; Srtp: no latching)",
         "both endpoints are rustrtc, same mode, on loopback; ICE-TCP and single-port UDP mux are configured as the "
         "library's own tests do (answerer listens / owns the mux port)",
@@ -308,9 +310,10 @@ def selftest():
     ck = vlib.Check(PID + "-selftest", "quick")
     vlib.OUT = ck.dir
     ok = True
-    for dev, inv in {"SdesBeforeLocalAnswer": "NeverFailed", "EqualRoles": "RolesComplementary"}.items():
+    for dev, inv in {"SdesBeforeLocalAnswer": "NeverFailed", "EqualRoles": "RolesComplementary",
+                     "SctpNeedsStoredRemote": "ConnectsAndDelivers"}.items():
         cfg = os.path.join(vlib.SPEC, f"MC_LifecyclePair_self_{dev}.gen.cfg")
-        mc_cfg(cfg, devs=[dev], liveness=False)
+        mc_cfg(cfg, devs=[dev], liveness=(inv == "ConnectsAndDelivers"))
         res = vlib.tlc("MC_LifecyclePair", os.path.basename(cfg), workers=4, timeout=600, tag=f"selfpair_{dev}")
         os.remove(cfg)
         hit = inv in " ".join(res["errors"])
